@@ -10,7 +10,7 @@ S=$(mktemp -d "${TMPDIR:-/tmp}/govc-harmless-XXXXXX") || exit 2
 if ! (cd "$S" && patch -p1 -s --no-backup-if-mismatch < "/verif/harmless/$ID/patch.diff" >/dev/null 2>&1); then
   echo "$ID: patch does not apply"; rm -rf "$S"; exit 3
 fi
-OUT=$(VERIF_REPO="$S" GOVC_NO_EVIDENCE=1 GOVC_REPLAY_DIR="$S/.replay" bin/govc check "$PROP" quick 2>&1)
+OUT=$(VERIF_REPO="$S" GOVC_NO_EVIDENCE=1 GOVC_REPLAY_DIR="$S/.replay" ${GOVC_BIN:-bin/govc} check "$PROP" quick 2>&1)
 RC=$?
 rm -rf "$S"
 if [ $RC -eq 0 ]; then echo "$ID: quiet (exit 0)"; else echo "$ID: FALSE ALARM (exit $RC)"; fi
